@@ -256,6 +256,13 @@ func runC15(c *Check) {
 						if k, ok := constString(*op); ok {
 							skip[k] = true
 						}
+						// a package-level table of such names (map or slice filled by the
+						// package initialiser)
+						if gl, ok := (*op).(*ssa.Global); ok && fnPkgPath(g) == gl.Pkg.Pkg.Path() {
+							for _, k := range stringsStoredInGlobal(p, gl) {
+								skip[k] = true
+							}
+						}
 					}
 				}
 			}
@@ -293,45 +300,52 @@ func (c *Check) sameFamily() {
 		recv ssa.Value
 		par  *ssa.Parameter
 	}
-	var sniffs []sniff
-	for _, b := range f.Blocks {
-		for _, ins := range b.Instrs {
-			call, ok := ins.(*ssa.Call)
-			if !ok || call.Call.StaticCallee() == nil || call.Call.StaticCallee().Name() != "sniffUnit" || len(call.Call.Args) != 2 {
-				continue
-			}
-			recv := call.Call.Args[0]
-			if ld, ok := recv.(*ssa.UnOp); ok && ld.Op == token.MUL {
-				recv = ld.X
-			}
-			var par *ssa.Parameter
-			if ld, ok := call.Call.Args[1].(*ssa.UnOp); ok && ld.Op == token.MUL {
-				if fa, ok := ld.X.(*ssa.FieldAddr); ok {
-					if _, F := fieldOf(fa.X.Type(), fa.Field); F == "Unit" {
-						par, _ = fa.X.(*ssa.Parameter)
-					}
-				}
-			}
-			sniffs = append(sniffs, sniff{call, recv, par})
-		}
-	}
 	pos := p.relFile(f.Pos())
 	okPair := false
-	for _, a := range sniffs {
-		for _, b := range sniffs {
-			if a.call == b.call || a.par == nil || b.par == nil || a.par == b.par || a.recv != b.recv {
-				continue
-			}
-			// a successful return dominated by both tests
-			for _, blk := range f.Blocks {
-				ret, ok := blk.Instrs[len(blk.Instrs)-1].(*ssa.Return)
-				if !ok || len(ret.Results) != 1 {
+	// the family test may be written in compatibleValueTypes or in a helper that receives the
+	// two unit names
+	for _, g := range withHelpers(f, 2) {
+		var sniffs []sniff
+		for _, b := range g.Blocks {
+			for _, ins := range b.Instrs {
+				call, ok := ins.(*ssa.Call)
+				if !ok || call.Call.StaticCallee() == nil || call.Call.StaticCallee().Name() != "sniffUnit" || len(call.Call.Args) != 2 {
 					continue
 				}
-				if k, ok := ret.Results[0].(*ssa.Const); ok && k.Value != nil && constant.BoolVal(k.Value) &&
-					a.call.Block().Dominates(blk) && b.call.Block().Dominates(blk) {
-					okPair = true
-					pos = p.relFile(ret.Pos())
+				recv := call.Call.Args[0]
+				if ld, ok := recv.(*ssa.UnOp); ok && ld.Op == token.MUL {
+					recv = ld.X
+				}
+				var par *ssa.Parameter
+				if sp, ok := call.Call.Args[1].(*ssa.Parameter); ok && g != f {
+					par = sp // a unit name handed to the helper
+				}
+				if ld, ok := call.Call.Args[1].(*ssa.UnOp); ok && ld.Op == token.MUL {
+					if fa, ok := ld.X.(*ssa.FieldAddr); ok {
+						if _, F := fieldOf(fa.X.Type(), fa.Field); F == "Unit" {
+							par, _ = fa.X.(*ssa.Parameter)
+						}
+					}
+				}
+				sniffs = append(sniffs, sniff{call, recv, par})
+			}
+		}
+		for _, a := range sniffs {
+			for _, b := range sniffs {
+				if a.call == b.call || a.par == nil || b.par == nil || a.par == b.par || a.recv != b.recv {
+					continue
+				}
+				// a successful return dominated by both tests
+				for _, blk := range g.Blocks {
+					ret, ok := blk.Instrs[len(blk.Instrs)-1].(*ssa.Return)
+					if !ok || len(ret.Results) != 1 {
+						continue
+					}
+					if k, ok := ret.Results[0].(*ssa.Const); ok && k.Value != nil && constant.BoolVal(k.Value) &&
+						a.call.Block().Dominates(blk) && b.call.Block().Dominates(blk) {
+						okPair = true
+						pos = p.relFile(ret.Pos())
+					}
 				}
 			}
 		}
@@ -381,11 +395,29 @@ func (c *Check) absolutePercentage() {
 			return nonNeg(x.X, seen)
 		case *ssa.MakeInterface:
 			return nonNeg(x.X, seen)
+		case *ssa.Parameter:
+			// the formatting may be a helper: the ratio handed to it at every call
+			fn := x.Parent()
+			calls, asValue := directCallSites(p, fn)
+			if asValue || len(calls) == 0 {
+				return false
+			}
+			for i, q := range fn.Params {
+				if q != x {
+					continue
+				}
+				for _, call := range calls {
+					if i >= len(call.Common().Args) || !nonNeg(call.Common().Args[i], seen) {
+						return false
+					}
+				}
+				return true
+			}
 		}
 		return false
 	}
 	n := 0
-	for _, b := range f.Blocks {
+	for _, b := range helperBlocks(f, 2) {
 		for _, ins := range b.Instrs {
 			call, ok := ins.(*ssa.Call)
 			if !ok || call.Call.StaticCallee() == nil || call.Call.StaticCallee().String() != "fmt.Sprintf" {
@@ -565,7 +597,32 @@ func (c *Check) valueUnitPairing() {
 		}
 		pos := p.relFile(as.Pos())
 		if fphi == nil || nphi == nil {
-			c.undecided("C15-R6", "pair:autoScale", pos, "autoScale's running factor/name pair not found")
+			// the best unit so far may be kept as one Unit value: factor and name are then paired
+			// by construction, provided the result divides by the factor of the unit it names
+			okStruct, n := true, 0
+			for _, b := range as.Blocks {
+				ret, isRet := b.Instrs[len(b.Instrs)-1].(*ssa.Return)
+				if !isRet || len(ret.Results) < 2 {
+					continue
+				}
+				if k, isK := ret.Results[1].(*ssa.Const); isK && k.Value != nil {
+					continue // the "no unit found" return
+				}
+				n++
+				q, isQ := ret.Results[0].(*ssa.BinOp)
+				if !isQ || q.Op != token.QUO {
+					okStruct = false
+					continue
+				}
+				if T, fx, fy, same := fieldPairOfOneObject(q.Y, ret.Results[1]); !same || T != "measurement.Unit" || fx != "Factor" || fy != "CanonicalName" {
+					okStruct = false
+				}
+			}
+			if okStruct && n > 0 {
+				c.ok("C15-R6", "pair:autoScale", pos, "autoScale returns value / U.Factor with U.CanonicalName for one unit value U", "factor and name are two fields of the same Unit value")
+			} else {
+				c.undecided("C15-R6", "pair:autoScale", pos, "autoScale's running factor/name pair not found")
+			}
 		} else {
 			bad := ""
 			paired := 0
@@ -628,8 +685,29 @@ func (c *Check) runningMinimumAs(rule string) {
 	var scale *ssa.Call
 	for _, b := range f.Blocks {
 		for _, ins := range b.Instrs {
-			if call, ok := ins.(*ssa.Call); ok && call.Call.StaticCallee() != nil && call.Call.StaticCallee().Name() == "Scale" && loopDepth(b) > 0 {
-				scale = call
+			if call, ok := ins.(*ssa.Call); ok && call.Call.StaticCallee() != nil && loopDepth(b) > 0 {
+				callee := call.Call.StaticCallee()
+				if callee.Name() == "Scale" {
+					scale = call
+				} else if fnInModule(callee) && len(callee.Blocks) > 0 && callee.Name() != "compatibleValueTypes" {
+					// a helper that compares two units through Scale
+					units, viaScale := 0, false
+					for _, a := range call.Call.Args {
+						if isFieldLoad(a, "profile.ValueType", "Unit") {
+							units++
+						}
+					}
+					for _, hb := range callee.Blocks {
+						for _, hi := range hb.Instrs {
+							if hc, ok := hi.(*ssa.Call); ok && hc.Call.StaticCallee() != nil && hc.Call.StaticCallee().Name() == "Scale" {
+								viaScale = true
+							}
+						}
+					}
+					if units >= 2 && viaScale && scale == nil {
+						scale = call
+					}
+				}
 			}
 		}
 	}
@@ -755,7 +833,7 @@ func (c *Check) sniffNormalisation() (func(string) string, string) {
 		call, ok := v.(*ssa.Call)
 		return ok && call.Call.StaticCallee() != nil && call.Call.StaticCallee().String() == "strings.ToLower"
 	}
-	for _, b := range f.Blocks {
+	for _, b := range helperBlocks(f, 2) {
 		for _, ins := range b.Instrs {
 			switch x := ins.(type) {
 			case *ssa.Call:
@@ -775,8 +853,18 @@ func (c *Check) sniffNormalisation() (func(string) string, string) {
 					}
 				}
 			case *ssa.BinOp:
-				if x.Op == token.GTR {
+				// "longer than k": n > k, or its negation n <= k guarding the early return
+				// (n >= k+1 and n < k+1 likewise)
+				adj := int64(-1)
+				switch x.Op {
+				case token.GTR, token.LEQ:
+					adj = 0
+				case token.GEQ, token.LSS:
+					adj = 1
+				}
+				if adj >= 0 {
 					if k, ok := constInt(x.Y); ok {
+						k -= adj
 						if lenArg(x.X) != nil {
 							threshold, measure = k, "bytes"
 						} else if call, ok := x.X.(*ssa.Call); ok && call.Call.StaticCallee() != nil && call.Call.StaticCallee().String() == "unicode/utf8.RuneCountInString" {
@@ -803,4 +891,54 @@ func (c *Check) sniffNormalisation() (func(string) string, string) {
 		return s
 	}
 	return norm, fmt.Sprintf("lower-case, then drop a trailing %q when the length in %s exceeds %d", suffix, measure, threshold)
+}
+
+// stringsStoredInGlobal: the string constants the package initialiser puts into the map or
+// slice held by global gl (keys and elements).
+func stringsStoredInGlobal(p *Program, gl *ssa.Global) []string {
+	init := gl.Pkg.Func("init")
+	if init == nil {
+		return nil
+	}
+	// the container value stored into the global
+	var containers []ssa.Value
+	for _, b := range init.Blocks {
+		for _, ins := range b.Instrs {
+			if st, ok := ins.(*ssa.Store); ok && st.Addr == ssa.Value(gl) {
+				containers = append(containers, st.Val)
+			}
+		}
+	}
+	var out []string
+	for _, cv := range containers {
+		if sl, ok := cv.(*ssa.Slice); ok {
+			cv = sl.X // literal array behind a slice
+		}
+		if cv.Referrers() == nil {
+			continue
+		}
+		for _, r := range *cv.Referrers() {
+			switch x := r.(type) {
+			case *ssa.MapUpdate:
+				if k, ok := constString(x.Key); ok {
+					out = append(out, k)
+				}
+				if k, ok := constString(x.Value); ok {
+					out = append(out, k)
+				}
+			case *ssa.IndexAddr:
+				if x.Referrers() == nil {
+					continue
+				}
+				for _, r2 := range *x.Referrers() {
+					if st, ok := r2.(*ssa.Store); ok {
+						if k, ok := constString(st.Val); ok {
+							out = append(out, k)
+						}
+					}
+				}
+			}
+		}
+	}
+	return out
 }
